@@ -222,8 +222,16 @@ func parseBody(r io.Reader) (uint64, [][]byte, []byte, error) {
 		klog.Infof("read sizeline: %v", err)
 		return 0, nil, nil, err
 	}
-	var size uint64
-	if n, err := fmt.Sscanf(string(sizeLine), "old %d", &size); err != nil || n != 1 {
+	// The size line is exactly "old " followed by a decimal uint64; Sscanf would
+	// stop at the first non-digit and accept lines like "old 5abc" or "old 0x10".
+	sizeStr, ok := strings.CutPrefix(string(sizeLine), "old ")
+	if !ok {
+		err := fmt.Errorf("invalid old size line %q", sizeLine)
+		klog.Infof("scan sizeline: %v", err)
+		return 0, nil, nil, err
+	}
+	size, err := strconv.ParseUint(sizeStr, 10, 64)
+	if err != nil {
 		klog.Infof("scan sizeline: %v", err)
 		return 0, nil, nil, err
 	}
